@@ -4,6 +4,14 @@ from ..runner import run_check
 
 
 def run(tier, seed, replay=None):
+    if replay:
+        from .. import vlib
+        from ..coro import replay as do_replay
+        d = vlib.Driver()
+        try:
+            return do_replay(replay, d)
+        finally:
+            d.close()
     parts = [CoroPart("coro")]
     return run_check(
         "C10", tier, seed, ["UnifexModel.Props.C10"], parts,
